@@ -87,6 +87,57 @@ static void c18_run_file(const Case &c, Result &r) {
   r.sample = f.s[1].substr(0, 800);
 }
 
+// large structured LPs: long phase I (every row needs its own pivot), refactorizations, recomputation
+// triggers, the sparse crash basis (>= 200 rows) -- paths that problems with a handful of rows never reach.
+// The case is a compact recipe (the runner expands it), so replay files stay small.
+static void c18_gen_large(Tape &t, Case &c) {
+  Op o("large");
+  int kind = (int)t.below(3);
+  int mm = 300 + (int)t.below(450);
+  o.I(kind).I(mm).I(t.below(3)).I(1 + (int)t.below(2)).I(t.below(5)).I(t.below(5)).I(t.below(1000));   // shape, rows, entry, algo, pprice, dprice, salt
+  c.ops.push_back(o);
+}
+static void c18_run_large(const Case &c, Result &r) {
+  if (c.ops.empty() || c.ops[0].k != "large" || c.ops[0].i.size() < 7) { r.verdict = DISCARD; return; }
+  const Op &o = c.ops[0];
+  int kind = (int)o.i[0] % 3, mm = (int)o.i[1], entry = (int)o.i[2] % 3, algo = (int)o.i[3] == 2 ? DUAL_SIMPLEX : PRIMAL_SIMPLEX;
+  if (mm < 2 || mm > 2000) { r.verdict = DISCARD; return; }
+  uint64_t salt = (uint64_t)o.i[6];
+  auto h = [&](int i, int k) { return fnv64(std::to_string(salt) + ":" + std::to_string(i) + ":" + std::to_string(k)); };
+  Model m;
+  m.objsense = 1;
+  m.name = "large";
+  for (int j = 0; j < mm; j++) { Col cc; cc.name = "x" + std::to_string(j); cc.lo = 0; cc.up = PINF(); cc.obj = Q((long)(1 + h(j, 0) % 9)); m.cols.push_back(cc); }
+  for (int i = 0; i < mm; i++) {
+    Row rw;
+    rw.name = "c" + std::to_string(i);
+    rw.sense = 'G';
+    rw.rhs = Q((long)(1 + h(i, 1) % 7));
+    rw.a[i] = Q((long)(1 + h(i, 2) % 5));                       // private column: one phase-I pivot per row
+    if (kind >= 1 && i + 1 < mm) rw.a[i + 1] = Q((long)(1 + h(i, 3) % 3));   // banded
+    if (kind == 2 && i >= 7) rw.a[i - 7] = Q(-(long)(h(i, 4) % 2));          // a second band, some negative entries
+    for (auto it = rw.a.begin(); it != rw.a.end();) { if (it->second == 0) it = rw.a.erase(it); else ++it; }
+    m.rows.push_back(rw);
+  }
+  std::string err;
+  mpq_QSprob p = sut_build(m, R_LOAD, &err);
+  if (!p) { r.fail("build:" + err, err); return; }
+  static const int pp[] = {0, QS_PRICE_PDANTZIG, QS_PRICE_PDEVEX, QS_PRICE_PSTEEP, QS_PRICE_PMULTPARTIAL};
+  static const int dp[] = {0, QS_PRICE_DDANTZIG, QS_PRICE_DSTEEP, QS_PRICE_DMULTPARTIAL, QS_PRICE_DDEVEX};
+  if (pp[o.i[4] % 5]) mpq_QSset_param(p, QS_PARAM_PRIMAL_PRICING, pp[o.i[4] % 5]);
+  if (dp[o.i[5] % 5]) mpq_QSset_param(p, QS_PARAM_DUAL_PRICING, dp[o.i[5] % 5]);
+  int st = 0, rv;
+  if (entry == 0) { rv = QSexact_solver(p, nullptr, nullptr, nullptr, algo, &st); QSexact_set_precision(128); }
+  else { mpq_QSset_param(p, QS_PARAM_SIMPLEX_MAX_ITERATIONS, 4 * mm); rv = algo == DUAL_SIMPLEX ? mpq_QSopt_dual(p, &st) : mpq_QSopt_primal(p, &st); }
+  r.label(strprintf("large:%s:%s:rows%s", entry == 0 ? "exact" : "direct", algo == DUAL_SIMPLEX ? "dual" : "primal", mm > 500 ? ">500" : "<=500"));
+  r.label(rv ? "large:error" : (st == QS_LP_OPTIMAL ? "large:OPTIMAL" : "large:other-status"));
+  mpq_QSfree_prob(p);
+  QSexactClear();
+  r.nontrivial = rv == 0 && st == QS_LP_OPTIMAL;
+  r.canon = c.str();
+  r.sample = c.str();
+}
+
 static std::string c18_context(const Case &c) {
   for (auto &o : c.ops) if (o.k == "bad" && o.i.size() >= 2) return strprintf("probe=%ld", o.i[0]);
   return "";
@@ -101,6 +152,9 @@ void register_c18() {
   Property f = {"C18", "file", c18_gen_file, c18_run_file, 6, 60, true};
   f.keep_going = true;
   register_property(f);
+  Property l = {"C18", "large", c18_gen_large, c18_run_large, 1, 300, true};
+  l.keep_going = true;
+  register_property(l);
   (void)c18_context;
 }
 
